@@ -3,11 +3,13 @@
   (never Mathlib), so it links as a native executable.
 -/
 import JV.Drv.MergePatch
+import JV.Drv.Pointer
 open JV Drv
 
 def dispatch (line : String) : String :=
   match tokens line with
   | "mp" :: rest => mergePatchLine rest
+  | "ptr" :: rest => pointerLine rest
   | [] => ""
   | _ => "bad-op"
 
